@@ -16,6 +16,7 @@ Decided statically (never measures time, never runs a regex):
 """
 
 import ast
+import re
 
 from .. import AnalysisError, rx
 from ..fold import RegexVal, is_unknown
@@ -235,43 +236,62 @@ def fixpoint_loops(ctx, only_module, floor):
         construct = f"{fi.qualname}: while {a} != {b}"
         # which of a/b is the snapshot: the one assigned from the other
         snap = None
+        pairs = []          # (target name, value expr, statement, simultaneous?)
         for st in loop.body:
-            if isinstance(st, ast.Assign) and len(st.targets) == 1 \
-                    and isinstance(st.targets[0], ast.Name):
-                t = st.targets[0].id
-                other = b if t == a else a if t == b else None
-                if other is None:
-                    continue
-                v = st.value
-                src = None
-                alias = False
-                if isinstance(v, ast.Name) and v.id == other:
-                    src, alias = other, True
-                elif isinstance(v, ast.Call) and isinstance(v.func, ast.Attribute) \
-                        and v.func.attr == 'copy' and isinstance(v.func.value, ast.Name) \
-                        and v.func.value.id == other:
-                    src = other
-                elif isinstance(v, ast.Call) and isinstance(v.func, ast.Name) \
-                        and v.func.id in ('list', 'tuple', 'str') and v.args \
-                        and isinstance(v.args[0], ast.Name) and v.args[0].id == other:
-                    src = other
-                elif isinstance(v, ast.Subscript) and isinstance(v.value, ast.Name) \
-                        and v.value.id == other and isinstance(v.slice, ast.Slice):
-                    src = other
-                if src is not None and snap is None:
-                    snap = (t, src, alias, st)
-        if snap is None:
+            if isinstance(st, ast.Assign) and len(st.targets) == 1:
+                tg = st.targets[0]
+                if isinstance(tg, ast.Name):
+                    pairs.append((tg.id, st.value, st, False))
+                elif isinstance(tg, ast.Tuple) and isinstance(st.value, ast.Tuple) \
+                        and len(tg.elts) == len(st.value.elts):
+                    for t_, v_ in zip(tg.elts, st.value.elts):
+                        if isinstance(t_, ast.Name):
+                            pairs.append((t_.id, v_, st, True))
+        for t, v, st, simul in pairs:
+            other = b if t == a else a if t == b else None
+            if other is None:
+                continue
+            src = None
+            alias = False
+            if isinstance(v, ast.Name) and v.id == other:
+                src, alias = other, True
+            elif isinstance(v, ast.Call) and isinstance(v.func, ast.Attribute) \
+                    and v.func.attr == 'copy' and isinstance(v.func.value, ast.Name) \
+                    and v.func.value.id == other:
+                src = other
+            elif isinstance(v, ast.Call) and isinstance(v.func, ast.Name) \
+                    and v.func.id in ('list', 'tuple', 'str') and v.args \
+                    and isinstance(v.args[0], ast.Name) and v.args[0].id == other:
+                src = other
+            elif isinstance(v, ast.Subscript) and isinstance(v.value, ast.Name) \
+                    and v.value.id == other and isinstance(v.slice, ast.Slice):
+                src = other
+            if src is not None and snap is None:
+                snap = (t, src, alias, st)
+        assigned_in_loop = {n.id for st in loop.body for n in ast.walk(st)
+                            if isinstance(n, ast.Name) and isinstance(n.ctx, ast.Store)}
+        never = [x for x in (a, b) if x not in assigned_in_loop]
+        if never:
             ctx.violation('FIXPOINT', construct,
-                          "loop never snapshots its subject: the condition "
-                          "compares values that are not re-synchronised",
+                          f"`{never[0]}` is compared by the loop condition but never assigned in the loop body: "
+                          f"the loop does not compare one pass with the next",
                           key=f"FIXPOINT|{fi.qualname}|nosnapshot",
                           where=common.loc(fi, loop))
+            continue
+        if snap is None:
+            ctx.undecided('FIXPOINT', construct, "snapshot idiom not recognised")
             continue
         snap_name, subject, alias, snap_stmt = snap
         # the subject must be re-derived from itself after the snapshot
         idx = loop.body.index(snap_stmt)
         rederived = False
         mut_alias = None
+        simul = isinstance(snap_stmt.targets[0], ast.Tuple)
+        if simul:
+            for t_, v_ in zip(snap_stmt.targets[0].elts, snap_stmt.value.elts):
+                if isinstance(t_, ast.Name) and t_.id == subject and any(
+                        isinstance(x, ast.Name) and x.id == subject for x in ast.walk(v_)):
+                    rederived = True
         for st in loop.body[idx + 1:]:
             for n in ast.walk(st):
                 if isinstance(n, ast.Assign) and any(
@@ -291,11 +311,17 @@ def fixpoint_loops(ctx, only_module, floor):
                                 if isinstance(arg, ast.Name) and arg.id == subject \
                                         and _mutates_param(ctx, t, j):
                                     mut_alias = n
-        if not rederived:
+        subj_assigned_after = simul or any(
+            isinstance(n, ast.Name) and isinstance(n.ctx, ast.Store) and n.id == subject
+            for st in loop.body[idx + 1:] for n in ast.walk(st))
+        if not rederived and not subj_assigned_after:
             ctx.violation('FIXPOINT', construct,
-                          f"`{subject}` is not re-derived from itself after the snapshot",
+                          f"`{subject}` is not assigned again after the snapshot: the condition compares "
+                          f"the value with its own copy",
                           key=f"FIXPOINT|{fi.qualname}|norederive",
                           where=common.loc(fi, loop))
+        elif not rederived:
+            ctx.undecided('FIXPOINT', construct, f"`{subject}` is re-assigned but not visibly from itself")
         elif mut_alias is not None:
             ctx.violation('FIXPOINT', construct,
                           f"snapshot `{norm(snap_stmt)}` aliases the object that "
@@ -405,41 +431,77 @@ def _walk_same_loop(loop):
 
 def _assigned_on_all_paths(body, name):
     """Every path through ``body`` that reaches its end (does not break/
-    return/raise) assigns ``name``."""
-    def stmts(bl):
-        # returns True if all fall-through paths assign
-        for st in bl:
-            r = one(st)
-            if r == 'assigned':
-                return 'assigned'
-            if r == 'exits':
-                return 'exits'
-        return 'none'
+    return/raise) assigns ``name``.  Path-sensitive over side-effect-free
+    conditions: ``if c: name = ...`` followed by ``if not c: break`` is
+    recognised (the set U holds the literals known true on every path that
+    has not assigned yet; a literal dies when one of its names is assigned)."""
+    def lit(test):
+        pol = True
+        while isinstance(test, ast.UnaryOp) and isinstance(test.op, ast.Not):
+            pol = not pol
+            test = test.operand
+        if any(isinstance(n, (ast.Call, ast.Await, ast.NamedExpr)) for n in ast.walk(test)):
+            return None
+        return norm(test), pol
 
-    def one(st):
+    def assigned_names(st):
+        out = set()
+        for n in ast.walk(st):
+            if isinstance(n, ast.Name) and isinstance(n.ctx, (ast.Store, ast.Del)):
+                out.add(n.id)
+        return out
+
+    def kill(U, st):
+        dead = assigned_names(st)
+        if not dead:
+            return U
+        return frozenset(l for l in U
+                         if not (set(re.findall(r'[A-Za-z_][A-Za-z_0-9]*', l[0])) & dead))
+
+    def stmts(bl, U):
+        for st in bl:
+            r, U = one(st, U)
+            U = kill(U, st)
+            if r in ('assigned', 'exits', 'none-continue'):
+                return r, U
+        return 'none', U
+
+    def one(st, U):
         if isinstance(st, (ast.Break, ast.Return, ast.Raise)):
-            return 'exits'
+            return 'exits', U
         if isinstance(st, ast.Continue):
-            return 'none-continue'
+            return 'none-continue', U
         if isinstance(st, (ast.Assign, ast.AugAssign, ast.AnnAssign)):
             tg = st.targets if isinstance(st, ast.Assign) else [st.target]
             for t in tg:
                 for n in ast.walk(t):
                     if isinstance(n, ast.Name) and n.id == name:
-                        return 'assigned'
-            return 'none'
+                        return 'assigned', U
+            return 'none', U
         if isinstance(st, ast.If):
-            a = stmts(st.body)
-            b = stmts(st.orelse) if st.orelse else 'none'
-            if a in ('assigned', 'exits') and b in ('assigned', 'exits'):
-                return 'assigned' if 'assigned' in (a, b) else 'exits'
+            L = lit(st.test)
+            if L is not None and L in U:
+                return stmts(st.body, U)
+            if L is not None and (L[0], not L[1]) in U:
+                return stmts(st.orelse, U) if st.orelse else ('none', U)
+            Ua = U | {L} if L else U
+            Ub = U | {(L[0], not L[1])} if L else U
+            a, Ua = stmts(st.body, Ua)
+            b, Ub = stmts(st.orelse, Ub) if st.orelse else ('none', Ub)
+            done = ('assigned', 'exits')
+            if a in done and b in done:
+                return ('assigned' if 'assigned' in (a, b) else 'exits'), U
             if 'none-continue' in (a, b):
-                return 'none-continue'
-            return 'none'
+                return 'none-continue', U
+            if a in done:
+                return 'none', Ub
+            if b in done:
+                return 'none', Ua
+            return 'none', Ua & Ub
         if isinstance(st, (ast.With,)):
-            return stmts(st.body)
+            return stmts(st.body, U)
         if isinstance(st, ast.Try):
-            return stmts(st.body + st.finalbody)
-        return 'none'
-    r = stmts(body)
+            return stmts(st.body + st.finalbody, U)
+        return 'none', U
+    r, _ = stmts(body, frozenset())
     return r in ('assigned', 'exits')
